@@ -376,6 +376,8 @@ pub enum Fault {
     ReferralUnresolvable,
     CnameSelf,
     CnameCycle2,
+    /// alias loop of n names from the question name + unrelated aliases in the same reply
+    CnameLoopStray(u8),
     NxForeignSoa,
     /// I/O error (connection refused / send failed)
     IoError,
@@ -540,6 +542,26 @@ fn apply_fault(
                 let other = prepend(b"loop", &q.name);
                 m.answers.push(rr(&q.name, cname(&other), 300));
                 m.answers.push(rr(&other, cname(&q.name), 300));
+            }
+            Some(enc(&m))
+        }
+        Fault::CnameLoopStray(len) => {
+            // an alias loop of `len` names reachable from the question name,
+            // next to aliases that are not on that path
+            let mut m = request.make_response();
+            m.header.recursion_available = false;
+            m.header.is_authoritative = true;
+            if let Some(q) = &q {
+                let mut names = vec![q.name.clone()];
+                for i in 1..*len {
+                    names.push(prepend(format!("loop{i}").as_bytes(), &q.name));
+                }
+                m.answers.push(rr(&dn("stray1.invalid."), cname(&dn("tracker.invalid.")), 300));
+                for i in 0..names.len() {
+                    let next = names[(i + 1) % names.len()].clone();
+                    m.answers.push(rr(&names[i], cname(&next), 300));
+                }
+                m.answers.push(rr(&dn("stray2.invalid."), cname(&dn("stray1.invalid.")), 300));
             }
             Some(enc(&m))
         }
@@ -915,6 +937,7 @@ fn dump_cache(cache: &SharedCache) -> Vec<ResourceRecord> {
 }
 
 pub fn run_once(spec: &RunSpec, prefix: &[usize]) -> RunResult {
+    crate::procpar::beat();
     let rt = tokio::runtime::Builder::new_current_thread()
         .enable_time()
         .start_paused(true)
